@@ -150,9 +150,12 @@ def rule_r4(rep, program):
     if len(calls) != 1:
         raise AnalysisError("ChainState.copy: constructor call not found")
     kws = {k.arg: k.value for k in calls[0].keywords}
-    cache = kws.get("_cache")
+    cache = c09.inline_self_call(program, "ChainState", kws.get("_cache"))
     r.inst({"site": "copy:_cache", "expr": norm(cache)})
-    if cache is None or (isinstance(cache, ast.Dict) and not cache.keys) or norm(cache) in ("None", "dict()"):
+    flt = c09.filtered_copy_of(cache, "self._cache") if cache is not None else None
+    if flt:
+        r.violate(PROP, f"ChainState.copy:_cache=filtered[{flt}]", f"copy() carries only the cache entries with `{flt}`: entries dropped by the filter (e.g. cached derivative functions such as VJP/MHP/MTP closures) are re-evaluated on every copy, i.e. on every integrator step", node=calls[0], file=f.file)
+    elif cache is None or (isinstance(cache, ast.Dict) and not cache.keys) or norm(cache) in ("None", "dict()"):
         r.violate(PROP, "ChainState.copy:_cache=dropped", "copy() does not carry the cache: every integrator step (which starts from a copy) re-evaluates all model functions", node=calls[0], file=f.file)
     for fld in ("_dependencies", "_call_counts"):
         v = kws.get(fld)
